@@ -53,7 +53,10 @@ class _ChunkIndexWrapper(_Orderable[ChunkIndex]):
 
     def position(self) -> Tuple[int, Optional[int]]:
         if self.reverse:
-            return (self.item.chunk_start_offset + self.item.chunk_length, None)
+            # the last byte of the chunk, not the byte after it: when nothing lies between two
+            # chunks that is the next chunk's start offset, and a chunk index that compares
+            # equal to every message of the next chunk breaks the ordering of those messages.
+            return (self.item.chunk_start_offset + self.item.chunk_length - 1, None)
         return (self.item.chunk_start_offset, None)
 
 
